@@ -15,7 +15,7 @@ SPEC = {
              "its fixed witness runs in TestKnownWitness."),
     "floors": {"TestPreloadEquivalence/proper_subset": 0.15, "TestPreloadEquivalence/filter_x_limit": 0.08,
                "TestPreloadEquivalence/filter_x_passes": 0.08, "TestPreloadEquivalence/limit_hit_with_filter": 0.03,
-               "TestPreloadEquivalence/date_middleware": 0.2, "TestPreloadEquivalence/date_middleware_entry_redelivered": 0.12,
+               "TestPreloadEquivalence/date_middleware": 0.13, "TestPreloadEquivalence/date_middleware_entry_redelivered": 0.094,
                "TestPreloadEquivalence/date_middleware_redelivered_entry_has_headers": 0.07},
     "manifest": {
         "technique": "differential property testing (rapid): the same generated file and settings with preload off vs on, plus an absolute model of chosencases/limit/passes",
